@@ -40,6 +40,9 @@ checks = {
  "C10": ("E1", "exhaustive enumeration of re-entrant operation histories on the real Publisher (all callback-behaviour vectors x all histories up to a depth) plus " + E1,
    "Re-entrant part: every history over {Subscribe(i), Unsubscribe(i), Publish} up to depth 4 (thorough 5) x every vector of callback behaviours (nothing / unsubscribe self / next / previous / subscribe a new one / nested publish) for 3 subscribers, plus Map chains of 1-3 hops, executed on the real Publisher and checked call by call (nested calls included) against the delivery rule. Concurrent part: all schedules (pre-emption bound 2/3) of 1-2 publishing goroutines against a goroutine that subscribes / unsubscribes, callbacks yielding, with and without SubscribeOn(handler): registered-before-and-through => exactly once, unsubscribed-before-begin => never, otherwise at most once; with a handler never on the publishing goroutine.",
    "Bounded subscribers/history depth/pre-emptions; SC interleavings; vsched runtime model.", "DESIGN.md §3, §2, §5 C10"),
+ "C11": ("E1", "exhaustive enumeration of all MonadIO compositions up to a depth (one shared expression DAG) against a reference interpreter, plus " + E1,
+   "Composition part: all expressions over {Just, New(e_i), m.FlatMap(f_j)} up to depth 4 (thorough 6) are built as one DAG with shared sub-expressions (3 effects whose value differs per evaluation, 3 continuations, one returning a nested composition); nothing may run while building; every expression is then evaluated by Eval (twice), Subscribe with OnNext and Subscribe without OnNext and compared (effect log, value, OnNext count) with a reference interpreter; the three monad laws are checked as equality of (effect log, value). Handler part: all schedules (pre-emption bound 2/3) of every nil/non-nil ObserveOn x SubscribeOn combination with 1-3 subscriptions of the same MonadIO and buffered handler mailboxes: effect on h1's goroutine, OnNext on h2's, once each, each OnNext receiving the value of its own evaluation.",
+   "Bounded expression depth / subscriptions / pre-emptions; SC interleavings; vsched runtime model.", "DESIGN.md §4, §2, §5 C11"),
 }
 
 not_yet = "check not built yet in this round (see DESIGN.md §9 build order); no claim made"
